@@ -47,6 +47,17 @@ def deletions(rnd, lines, quick):
         out.append(("side chain", [i for i in rr if lines[i][12:16].strip() not in ("N", "CA", "C", "O", "OXT")]))
         out.append(("backbone of a residue", [i for i in rr if lines[i][12:16].strip() in ("N", "CA", "C", "O")]))
         out.append(("whole residue", rr))
+    # the hetero atoms at the end of one side chain (the group's defining atom stays: ASP keeps CG, HIS keeps CG, ARG keeps CZ),
+    # all of them or one at a time
+    ends = [rr for rr in res_ranges if lines[rr[0]][17:20] in pdbgen.SIDE_CHAIN_ENDS]
+    for rr in rnd.sample(ends, min(len(ends), 4 if quick else 30)):
+        idx = [i for i in rr if lines[i][12:16].strip() in pdbgen.SIDE_CHAIN_ENDS[lines[i][17:20]]]
+        if idx:
+            out.append(("side-chain end " + lines[rr[0]][17:20], idx))
+            out.append(("one side-chain end atom " + lines[rr[0]][17:20], [rnd.choice(idx)]))
+    cterm = [i for i in atoms if lines[i][12:16].strip() == "C" and any(lines[j][12:16].strip() == "OXT" and pdbgen.res_key(lines[j]) == pdbgen.res_key(lines[i]) for j in atoms)]
+    for i in cterm[:2]:
+        out.append(("carbonyl carbon of a C-terminus", [i]))
     if res_ranges:
         out.append(("first residue", res_ranges[0]))
         out.append(("last residue", res_ranges[-1]))
